@@ -3,6 +3,7 @@ package main
 // ctx.go — loading /repo, collecting functions, running the generator.
 
 import (
+	"runtime/debug"
 	"fmt"
 	"go/ast"
 	"go/token"
@@ -258,6 +259,9 @@ func (c *Ctx) RunFunc(key string) *FuncResult {
 					res.Error = "out-of-subset: " + e.msg
 				case specError:
 					res.Error = "spec-error: " + e.msg
+					if os.Getenv("VERIF_TRACE") != "" {
+						fmt.Fprintf(os.Stderr, "%s\n%s\n", e.msg, debug.Stack())
+					}
 				default:
 					panic(r)
 				}
